@@ -129,13 +129,14 @@ def h_sidefx(params):
     def body(h):
         name = names[choose("op", len(names))]
         fn = table[name]
-        for i in range(3):
+        rows = params.get("rows", 3)
+        for i in range(rows):
             h.db.insert(_pt(i))
         h.db.close()
         if mode == "w+":
             # w+ truncates on open: re-create the contents through the w+ handle
             db = TinyFlux(h.path, access_mode="w+", auto_index=h.ai)
-            for i in range(3):
+            for i in range(rows):
                 db.insert(_pt(i))
         else:
             # a non-empty append-only database cannot be indexed (reading is not permitted)
@@ -186,5 +187,12 @@ def obligations(tier):
         for mode in range(len(MODES)):
             for ai in (True, False):
                 obs.append({"id": f"{group}/mode-{MODES[mode]}/{'ai' if ai else 'noai'}", "harness": "h_sidefx", "params": {"group": group, "mode": mode, "ai": ai}, "budget_s": 120})
+    if tier == "thorough":
+        # the empty database, one row, and nine rows (positions >= 8)
+        for rows in (0, 1, 9):
+            for group in ("read", "noop", "write"):
+                for mode in range(len(MODES)):
+                    for ai in (True, False):
+                        obs.append({"id": f"{group}/mode-{MODES[mode]}/{'ai' if ai else 'noai'}/rows{rows}", "harness": "h_sidefx", "params": {"group": group, "mode": mode, "ai": ai, "rows": rows}, "budget_s": 300})
     obs.append({"id": "twin/sidefx", "harness": "h_sidefx", "params": {"group": "noop", "mode": 0, "ai": True, "twin": True}, "budget_s": 60})
     return obs
